@@ -133,7 +133,7 @@ def extract(g, X):
             raise ValueError("the widths are not (second field, third field) of max_field_widths()")
         w = re.search(r"\bw\s*:\s*vec!\[\s*(\d+)\s*,\s*" + aw + r"\s*,\s*" + bw + r"\s*\]", b).group(1)
         im = re.search(r"\bindex\s*:\s*vec!\[\s*(\d+)\s*,\s*([^\],]+?)\s*\]", b)
-        if not X.is_alias(im.group(2), size, b):
+        if not X.is_alias(im.group(2), size, b, param=True):
             raise ValueError("/Index does not end with the size")
         sl = []
         for m in re.finditer(r"(\w+)(\.to_be_bytes\(\))?\s*\[\s*(\d+)\s*-\s*(\w+)\s*\.\.\s*\]", b):
@@ -161,7 +161,7 @@ def extract(g, X):
         try:
             arm = X.match_arms(b, r"self\.changes\.get\(\s*&\w+\.id\s*\)")[0]
             pm = re.fullmatch(r"Some\(\s*\(\s*(\w+)\s*,\s*_\s*\)\s*\)", arm.pattern)
-            first = bool(pm and re.fullmatch(r"(?:return\s+)?Ok\(\s*(?:\(\s*\*" + pm.group(1) + r"\s*\)|" + pm.group(1) + r")\.clone\(\)\s*\)\s*;?", arm.expr)
+            first = bool(pm and arm.guard is None and re.fullmatch(r"(?:return\s+)?Ok\(\s*(?:\(\s*\*" + pm.group(1) + r"\s*\)|" + pm.group(1) + r")\.clone\(\)\s*\)\s*;?", arm.expr)
                          and b.index("self.changes.get(") < b.index("self.refs.get("))
         except (KeyError, ValueError):
             first = False
